@@ -1100,6 +1100,17 @@ class World:
                 f"{json.dumps(op)}: plain tree {'succeeds' if okr else 'raises ' + str(excr)}, IH5 {'succeeds' if oks else 'raises ' + str(excs)}",
                 shape=self.shape_of(op),
             )
+        if oks and op["op"] == "require_group":
+            # the returned handle must show the node as the plain tree does
+            try:
+                hs = r.obj[op["base"]].require_group(op["path"])
+                hr = r.ref[op["base"]].require_group(op["path"])
+                got = (sorted(hs.keys()), sorted(hs.attrs.keys()), hs.name)
+                want = (sorted(hr.keys()), sorted(hr.attrs.keys()), hr.name)
+            except Exception as e:
+                raise Violation("C01", "nav", f"handle returned by require_group({op['path']!r}) unusable: {type(e).__name__}: {e}")
+            if got != want:
+                raise Violation("C01", "nav", f"group returned by require_group({op['path']!r}) shows children/attrs {got}, plain tree {want}", shape="require_group-handle")
         # was this op touching something first written in an older container?
         if len(r.disk) > 1:
             self.old_touch += 1
